@@ -230,6 +230,13 @@ func genC08(p *Plan, tier string) {
 	// biases that keep every later step applicable whatever subset fires
 	safe := []string{"fatigue", "preferenceReversal", "anchoring", "criteriaConcealment", "fatigue", "preferenceReversal"}
 	n := r.Range(0, 6)
+	if r.Bool(0.06) {
+		// a long list (fixed-size buffers, bit masks and small counters hide behind the usual
+		// handful of entries); only biases that add no criteria, so the request stays small
+		n = r.Range(9, 40)
+		safe = []string{"fatigue", "preferenceReversal"}
+		p.Tags = append(p.Tags, "c08-long-bias-list")
+	}
 	type ent struct {
 		e    J
 		meta C08Entry
